@@ -290,6 +290,10 @@ class World:
                 return self.construct(eng, o[1], args, kwargs, st, node)
         if o is __import__('typing').cast:
             return args[1]
+        if o is __import__('warnings').warn:
+            # A-py: issuing a warning under the default filters returns None (with -W error the deprecated alias :contains raises
+            # FutureWarning by the user's own choice)
+            return VNone()
         for r in self.method_rules:
             v = r(eng, fv, '__call__', args, kwargs, st, node, None)
             if v is not NotImplemented:
